@@ -37,3 +37,15 @@ pub fn sv_le(a: ScalarValue, b: ScalarValue) -> (r: bool)
 #[verifier::external_body]
 pub fn sv_lt(a: ScalarValue, b: ScalarValue) -> (r: bool)
     ensures (int_of(a) is Some && int_of(b) is Some) ==> r == (int_of(a)->Some_0 < int_of(b)->Some_0) { unimplemented!() }
+/// ASSUMED contract of coerce_for_comparison for operands of the same data type (no cast needed: both results None);
+/// operands of different types go through comparison_coercion + Arrow casts and are not covered
+#[verifier::external_body]
+fn coerce_for_comparison(lhs: &Interval, rhs: &Interval) -> (r: Result<(Option<Interval>, Option<Interval>)>)
+    ensures lhs.lower.spec_data_type() == rhs.lower.spec_data_type() ==> r is Ok && r->Ok_0.0 is None && r->Ok_0.1 is None,
+{ unimplemented!() }
+/// R13: stands for `x_owned.as_ref().unwrap_or(x)`
+fn owned_or<'a>(owned: &'a Option<Interval>, fallback: &'a Interval) -> (r: &'a Interval)
+    ensures *r == (if *owned is Some { owned->Some_0 } else { *fallback }),
+{
+    match owned { Some(i) => i, None => fallback }
+}
